@@ -202,6 +202,13 @@ func run(c Case) (res ev.Result) {
 		smf.Message{0xFF, 0x58, 0x04, 3}.GetMetaMeter(&n, &n)
 		_ = smf.Message{0xFF, 0x03, 0x7F, 'x'}.String()
 	})
+	// the caller owns a message it got and may append to it: build the same message once, append
+	// to it, and only then build the message under test
+	ev.Try(func() {
+		build()
+		_ = append(m, 0xEE, 0xEE, 0xEE, 0xEE)
+		m = nil
+	})
 	if p := ev.Try(build); p != "" {
 		res.Violation = "constructor Meta" + c.Kind + ": " + p
 		return
